@@ -12,7 +12,7 @@ ID = "C17"
 LEVEL = "proof"
 PROPS_FILE = "C17.v"
 RUN_MODULE = "RunC17"
-TRANSLATOR_UNITS = []
+TRANSLATOR_UNITS = ["cdc"]
 RULE = ("exhaustive words over {output edge, input toggle, toggle coincident with the edge} (PulseSynchronizer: {o edge, i edge, "
         "both edges, input toggle}), outputs read after every step so every prefix is covered: stages=2 length 7 (thorough 8) with "
         "ONE parameter variant drawn per word in quick (ff: 6 (init, input init) pairs incl. init absent; af: async_edge x input init; "
